@@ -108,44 +108,51 @@ Proof.
 Qed.
 
 (* ------------------------------------------------------------------ the un-spend pass *)
-Definition flipped (acc : list orec) (o : orec) : orec :=
-  if existsb (fun a => okey_eqb a (r_key o) (r_mmr o)) acc then set_status o Unspent else o.
+Lemma repaired_fields ch o :
+  r_key (repaired ch o) = r_key o /\ r_mmr (repaired ch o) = r_mmr o /\ r_value (repaired ch o) = r_value o
+  /\ r_root (repaired ch o) = r_root o /\ r_tx (repaired ch o) = r_tx o /\ r_cb (repaired ch o) = r_cb o
+  /\ r_status (repaired ch o) = Unspent.
+Proof. unfold repaired. destruct (find _ ch); destruct o; cbn; repeat split; reflexivity. Qed.
 
-Lemma unspend_outs w o : w_outs (unspend w o) = save_out (w_outs w) (set_status o Unspent).
+Definition flipped (ch : list cout) (acc : list orec) (o : orec) : orec :=
+  if existsb (fun a => okey_eqb a (r_key o) (r_mmr o)) acc then repaired ch o else o.
+
+Lemma unspend_outs ch w o : w_outs (unspend ch w o) = save_out (w_outs w) (repaired ch o).
 Proof.
   unfold unspend, cancel_entry_of. destruct (r_tx o); [|reflexivity].
   destruct (find _ _); reflexivity.
 Qed.
 
-Lemma flipped_key acc o : r_key (flipped acc o) = r_key o /\ r_mmr (flipped acc o) = r_mmr o.
-Proof. unfold flipped. destruct (existsb _ _); destruct o; cbn; auto. Qed.
+Lemma flipped_key ch acc o : r_key (flipped ch acc o) = r_key o /\ r_mmr (flipped ch acc o) = r_mmr o.
+Proof.
+  unfold flipped. destruct (existsb _ _); [|auto].
+  destruct (repaired_fields ch o) as (A & B & _). auto.
+Qed.
 
-(** after the pass the table is the snapshot with exactly the listed records set Unspent *)
-Lemma fold_unspend_outs snap : forall acc done w,
+(** after the pass the table is the snapshot with exactly the listed records repaired *)
+Lemma fold_unspend_outs ch snap : forall acc done w,
   NoDup (map okey snap) -> (forall a, In a acc -> In a snap) ->
-  w_outs w = map (flipped done) snap ->
-  w_outs (fold_left unspend acc w) = map (flipped (rev acc ++ done)) snap.
+  w_outs w = map (flipped ch done) snap ->
+  w_outs (fold_left (unspend ch) acc w) = map (flipped ch (rev acc ++ done)) snap.
 Proof.
   induction acc as [|a r IH]; intros done w Hn Hin Hw; cbn [fold_left rev app]; [exact Hw|].
   rewrite <- app_assoc. cbn [app]. apply IH; [exact Hn|intros a' Ha'; apply Hin; now right|].
   rewrite unspend_outs, Hw.
   assert (Ha : In a snap) by (apply Hin; now left).
-  assert (Hn' : NoDup (map okey (map (flipped done) snap))).
+  assert (Hn' : NoDup (map okey (map (flipped ch done) snap))).
   { rewrite map_map. erewrite map_ext; [exact Hn|]. intros o. unfold okey.
-    destruct (flipped_key done o) as [-> ->]. reflexivity. }
-  assert (Hg : get_out (map (flipped done) snap) (r_key (set_status a Unspent)) (r_mmr (set_status a Unspent))
-               = Some (flipped done a)).
-  { replace (r_key (set_status a Unspent)) with (r_key (flipped done a))
-      by (destruct (flipped_key done a) as [-> _]; destruct a; reflexivity).
-    replace (r_mmr (set_status a Unspent)) with (r_mmr (flipped done a))
-      by (destruct (flipped_key done a) as [_ ->]; destruct a; reflexivity).
+    destruct (flipped_key ch done o) as [-> ->]. reflexivity. }
+  destruct (repaired_fields ch a) as (K1 & K2 & _).
+  assert (Hg : get_out (map (flipped ch done) snap) (r_key (repaired ch a)) (r_mmr (repaired ch a))
+               = Some (flipped ch done a)).
+  { rewrite K1, K2.
+    replace (r_key a) with (r_key (flipped ch done a)) by (destruct (flipped_key ch done a) as [-> _]; reflexivity).
+    replace (r_mmr a) with (r_mmr (flipped ch done a)) by (destruct (flipped_key ch done a) as [_ ->]; reflexivity).
     apply get_out_of_in; [exact Hn'|]. apply in_map. exact Ha. }
   rewrite (save_as_map _ _ _ Hn' Hg), map_map. apply map_ext_in. intros o Ho.
-  assert (Kset : r_key (set_status a Unspent) = r_key a /\ r_mmr (set_status a Unspent) = r_mmr a)
-    by (destruct a; cbn; auto).
-  destruct Kset as [K1 K2]. rewrite K1, K2.
-  destruct (flipped_key done o) as [F1 F2].
-  destruct (okey_eqb (flipped done o) (r_key a) (r_mmr a)) eqn:E.
+  rewrite K1, K2.
+  destruct (flipped_key ch done o) as [F1 F2].
+  destruct (okey_eqb (flipped ch done o) (r_key a) (r_mmr a)) eqn:E.
   - (* the record with a's DB key is a itself *)
     apply okey_eqb_iff in E as [E1 E2]. rewrite F1 in E1. rewrite F2 in E2.
     assert (o = a).
@@ -268,25 +275,27 @@ Theorem scan_repairs_any_wallet w chain :
 Proof.
   intros Hwf Hc. cbn zeta.
   set (snap := w_outs w). set (acc := accidental snap chain). set (ms := missing snap chain).
-  set (w1 := fold_left unspend acc w). set (w2 := fold_left restore_missing ms w1).
+  set (w1 := fold_left (unspend chain) acc w). set (w2 := fold_left restore_missing ms w1).
   assert (Houts : w_outs (scan_repair w chain false) = w_outs w2).
   { unfold scan_repair. fold snap acc ms w1 w2. apply restore_indices_outs. }
   (* the un-spend pass *)
-  assert (H1 : w_outs w1 = map (flipped (rev acc ++ [])) snap).
+  assert (H1 : w_outs w1 = map (flipped chain (rev acc ++ [])) snap).
   { apply fold_unspend_outs; [exact Hwf|intros a Ha; eapply in_accidental; exact Ha|].
     unfold snap. rewrite <- (map_id (w_outs w)) at 1. apply map_ext. intros o. reflexivity. }
   rewrite app_nil_r in H1.
   assert (Hn1 : NoDup (map okey (w_outs w1))).
   { rewrite H1, map_map. erewrite map_ext; [exact Hwf|]. intros o. unfold okey.
-    destruct (flipped_key (rev acc) o) as [-> ->]. reflexivity. }
-  assert (Hfind1 : forall d, find_match (w_outs w1) d = option_map (flipped (rev acc)) (find_match snap d)).
+    destruct (flipped_key chain (rev acc) o) as [-> ->]. reflexivity. }
+  assert (Hfind1 : forall d, find_match (w_outs w1) d = option_map (flipped chain (rev acc)) (find_match snap d)).
   { intros d. rewrite H1. unfold find_match. apply find_map_same. intros o _.
-    unfold same_commit. destruct (flipped_key (rev acc) o) as [-> _].
-    unfold flipped. destruct (existsb _ _); destruct o; reflexivity. }
+    unfold same_commit. destruct (flipped_key chain (rev acc) o) as [-> _].
+    unfold flipped. destruct (existsb _ _); [|reflexivity].
+    destruct (repaired_fields chain o) as (_ & _ & -> & _). reflexivity. }
   assert (Hns1 : NoSpentMatch chain (w_outs w1)).
   { intros d o Hd Hf. rewrite Hfind1 in Hf. destruct (find_match snap d) as [y|] eqn:Ey; [|discriminate].
     cbn in Hf. inversion Hf; subst o. unfold flipped.
-    destruct (existsb (fun a => okey_eqb a (r_key y) (r_mmr y)) (rev acc)) eqn:Ee; [destruct y; cbn; discriminate|].
+    destruct (existsb (fun a => okey_eqb a (r_key y) (r_mmr y)) (rev acc)) eqn:Ee;
+      [destruct (repaired_fields chain y) as (_ & _ & _ & _ & _ & _ & ->); discriminate|].
     intros Hsp.
     (* a Spent first match is in the accidental list *)
     assert (Hin : In y acc).
@@ -315,7 +324,7 @@ Proof.
 Qed.
 
 (* ------------------------------------------------------------------ scans keep the table well-formed *)
-Lemma fold_unspend_wf : forall acc w, WF w -> WF (fold_left unspend acc w).
+Lemma fold_unspend_wf ch : forall acc w, WF w -> WF (fold_left (unspend ch) acc w).
 Proof.
   induction acc as [|a r IH]; intros w Hw; cbn [fold_left]; [exact Hw|].
   apply IH. unfold WF. rewrite unspend_outs. now apply nodup_save.
@@ -330,10 +339,10 @@ Proof. unfold cancel_entry_of. destruct (r_tx o); [|reflexivity]. destruct (find
 Theorem scan_repair_wf w chain del : WF w -> WF (scan_repair w chain del).
 Proof.
   intros Hw. unfold scan_repair, WF. rewrite restore_indices_outs.
-  set (w2 := fold_left restore_missing _ (fold_left unspend _ w)).
+  set (w2 := fold_left restore_missing _ (fold_left (unspend chain) _ w)).
   assert (H2 : WF w2) by (apply fold_restore_wf; apply fold_unspend_wf; exact Hw).
   destruct del; [|exact H2].
-  set (wa := fold_left unspend _ w2).
+  set (wa := fold_left (unspend chain) _ w2).
   assert (Ha : WF wa) by (apply fold_unspend_wf; exact H2).
   generalize (filter (fun o => status_eqb (r_status o) Unconfirmed) (w_outs w)).
   intros l. revert Ha. generalize wa. clear.
@@ -346,21 +355,21 @@ Qed.
 Definition key_origin (w : wallet) (ms : list cout) (o : orec) : Prop :=
   (exists o0, In o0 (w_outs w) /\ r_key o0 = r_key o) \/ (exists d, In d ms /\ r_key o = co_key d).
 
-Lemma unspend_frame w o : w_ctxs (unspend w o) = w_ctxs w /\ w_child (unspend w o) = w_child w.
+Lemma unspend_frame ch w o : w_ctxs (unspend ch w o) = w_ctxs w /\ w_child (unspend ch w o) = w_child w.
 Proof. unfold unspend, cancel_entry_of. destruct (r_tx o); [destruct (find _ _)|]; cbn; auto. Qed.
 
-Lemma fold_unspend_origin w0 ms : forall acc w,
+Lemma fold_unspend_origin ch w0 ms : forall acc w,
   (forall a, In a acc -> exists o0, In o0 (w_outs w0) /\ r_key o0 = r_key a) ->
   (forall o, In o (w_outs w) -> key_origin w0 ms o) -> w_ctxs w = w_ctxs w0 -> w_child w = w_child w0 ->
-  let w' := fold_left unspend acc w in
+  let w' := fold_left (unspend ch) acc w in
   (forall o, In o (w_outs w') -> key_origin w0 ms o) /\ w_ctxs w' = w_ctxs w0 /\ w_child w' = w_child w0.
 Proof.
   induction acc as [|a r IH]; intros w Hacc Ho Hc Hch; cbn [fold_left]; [auto|].
-  destruct (unspend_frame w a) as [F1 F2].
+  destruct (unspend_frame ch w a) as [F1 F2].
   apply IH; [intros x Hx; apply Hacc; now right| |congruence|congruence].
   intros o Hin. rewrite unspend_outs in Hin. apply in_save_out in Hin as [->|Hin]; [|auto].
   left. destruct (Hacc a (or_introl eq_refl)) as (o0 & A & B). exists o0. split; [exact A|].
-  destruct a; cbn in *. exact B.
+  destruct (repaired_fields ch a) as (-> & _). exact B.
 Qed.
 
 Lemma restore_missing_frame w d :
@@ -390,12 +399,12 @@ Theorem scan_repair_fresh w chain del : Fresh w -> Fresh (scan_repair w chain de
 Proof.
   intros [Hfo Hfc]. unfold scan_repair.
   set (snap := w_outs w). set (acc := accidental snap chain). set (ms := missing snap chain).
-  set (w1 := fold_left unspend acc w). set (w2 := fold_left restore_missing ms w1).
+  set (w1 := fold_left (unspend chain) acc w). set (w2 := fold_left restore_missing ms w1).
   assert (Hsnap : forall (l : list orec), (forall a, In a l -> In a snap) ->
             forall a, In a l -> exists o0, In o0 (w_outs w) /\ r_key o0 = r_key a).
   { intros l Hl a Ha. exists a. split; [apply Hl; exact Ha|reflexivity]. }
   assert (H0 : forall o, In o (w_outs w) -> key_origin w ms o) by (intros o Ho; left; eauto).
-  destruct (fold_unspend_origin w ms acc w (Hsnap acc (fun a Ha => in_accidental snap chain a Ha)) H0 eq_refl eq_refl)
+  destruct (fold_unspend_origin chain w ms acc w (Hsnap acc (fun a Ha => in_accidental snap chain a Ha)) H0 eq_refl eq_refl)
     as (A1 & A2 & A3). fold w1 in A1, A2, A3.
   destruct (fold_restore_origin w ms ms w1 (fun d H => H) A1 A2 A3) as (B1 & B2 & B3). fold w2 in B1, B2, B3.
   (* the optional third stage only un-spends snapshot records and deletes *)
@@ -407,8 +416,8 @@ Proof.
       destruct (find_match snap d) as [o|] eqn:E; [|contradiction].
       destruct (status_eqb (r_status o) Locked); [|contradiction]. destruct Ha as [<-|[]].
       unfold find_match in E. apply find_some in E as [E _]. exact E. }
-    destruct (fold_unspend_origin w ms (locked_on_chain snap chain) w2 (Hsnap _ Hloc) B1 B2 B3) as (C1 & C2 & C3).
-    set (wa := fold_left unspend (locked_on_chain snap chain) w2) in *.
+    destruct (fold_unspend_origin chain w ms (locked_on_chain snap chain) w2 (Hsnap _ Hloc) B1 B2 B3) as (C1 & C2 & C3).
+    set (wa := fold_left (unspend chain) (locked_on_chain snap chain) w2) in *.
     generalize (filter (fun o => status_eqb (r_status o) Unconfirmed) snap). intros l.
     revert C1 C2 C3. generalize wa. clear -w.
     induction l as [|o r IH]; intros w0 C1 C2 C3; cbn [fold_left]; [auto|].
